@@ -1,0 +1,113 @@
+//go:build verif
+// +build verif
+
+package storage
+
+// Verification hooks (build tag "verif"): a stand-alone partition state machine
+// (the real partition.process / snapshot / processSnapshot over a real index,
+// without a raft group) for the conformance harness in /verif.
+
+import (
+	"fmt"
+
+	"github.com/marekgalovic/anndb/index"
+	pb "github.com/marekgalovic/anndb/protobuf"
+	"github.com/marekgalovic/anndb/utils"
+
+	"github.com/golang/protobuf/proto"
+	uuid "github.com/satori/go.uuid"
+	log "github.com/sirupsen/logrus"
+)
+
+type VerifPartitionSM struct {
+	p *partition
+}
+
+func NewVerifPartitionSM(idx *index.Hnsw) *VerifPartitionSM {
+	id := uuid.NewV4()
+	return &VerifPartitionSM{p: &partition{
+		id:          id,
+		index:       idx,
+		notificator: utils.NewNotificator(),
+		log:         log.WithFields(log.Fields{"partition_id": id}),
+	}}
+}
+
+func NewVerifPartitionSMFromDataset(dataset *pb.Dataset) *VerifPartitionSM {
+	return NewVerifPartitionSM(newIndexFromDatasetProto(dataset))
+}
+
+func (s *VerifPartitionSM) Index() *index.Hnsw { return s.p.index }
+func (s *VerifPartitionSM) Len() int           { return s.p.len() }
+func (s *VerifPartitionSM) BytesSize() uint64  { return s.p.bytesSize() }
+
+// VerifOutcome is what one applied log entry produced.
+type VerifOutcome struct {
+	Notified   bool              // the proposer's channel received an outcome
+	Single     string            // "", or the error text for single-item changes
+	Batch      map[string]string // id -> error text for batch changes (nil for single)
+	IsBatch    bool
+	ProcessErr string // error returned by process() (the raft loop would log.Fatal)
+	Panic      string // recovered panic (the raft loop would crash)
+}
+
+// Apply runs one change through the real partition.process exactly as the raft
+// apply loop does, with a registered (buffered) proposer channel.
+func (s *VerifPartitionSM) Apply(change *pb.PartitionChange) (data []byte, out VerifOutcome) {
+	notifC, notifId := s.p.notificator.Create(1)
+	defer s.p.notificator.Remove(notifId)
+	change.NotificationId = notifId.Bytes()
+	data, err := proto.Marshal(change)
+	if err != nil {
+		out.ProcessErr = "marshal: " + err.Error()
+		return nil, out
+	}
+	out = s.applyBytes(data)
+	select {
+	case v := <-notifC:
+		out.Notified = true
+		switch r := v.(type) {
+		case nil:
+		case partitionBatchResult:
+			out.IsBatch = true
+			out.Batch = make(map[string]string)
+			for id, e := range r {
+				out.Batch[id.String()] = e.Error()
+			}
+		case error:
+			out.Single = r.Error()
+		default:
+			out.Single = fmt.Sprintf("unexpected outcome %T", v)
+		}
+	default:
+	}
+	return data, out
+}
+
+// ApplyBytes applies an entry nobody waits for (a follower, or a replay).
+func (s *VerifPartitionSM) ApplyBytes(data []byte) VerifOutcome {
+	return s.applyBytes(data)
+}
+
+func (s *VerifPartitionSM) applyBytes(data []byte) (out VerifOutcome) {
+	defer func() {
+		if r := recover(); r != nil {
+			out.Panic = fmt.Sprint(r)
+		}
+	}()
+	if err := s.p.process(data); err != nil {
+		out.ProcessErr = err.Error()
+	}
+	return out
+}
+
+func (s *VerifPartitionSM) Snapshot() ([]byte, error) { return s.p.snapshot() }
+
+func (s *VerifPartitionSM) Restore(data []byte) (err error) {
+	defer func() {
+		if r := recover(); r != nil {
+			err = fmt.Errorf("panic: %v", r)
+		}
+	}()
+	return s.p.processSnapshot(data)
+}
